@@ -97,7 +97,8 @@ def run_case(gw, base, case):
     try:
         os.chdir(cwd)
         try:
-            r = R(srcroot, verbose=False)
+            # (the source directory may be given with a trailing slash: same result)
+            r = R(srcroot + ("/" if case.get("slash") else ""), verbose=False)
             r.add_target(gw, dstroot, delete=case["del"])
             r.send()
             first = list(sent)
